@@ -693,7 +693,11 @@ def sec_q(ck, K, eps_list):
             ck.notes.append(f"epsilon={eps}: every draw may explore, the departure bound is trivially 1; only `masks respected` is decided")
         else:
             us = uf_terms(ite, "RAND_u01")
-            assert len(us) == 1, f"harness: expected one uniform draw in the epsilon-greedy trace, found {len(us)}"
+            if len(us) == 0:
+                # no uniform threshold: the exploration may be ONE draw from a categorical behaviour law -- decided from that law's probabilities
+                sec_q_behaviour_law(ck, K, eps, pol, obs, m0)
+                continue
+            assert len(us) == 1, f"harness: expected at most one uniform draw in the epsilon-greedy trace, found {len(us)}"
             u = us[0]
             e32 = Fraction(float(np.float32(eps)))
             # departure event inside {u < eps}; an implementation testing the upper tail {u >= 1 - eps} is equally within the statement
@@ -714,10 +718,107 @@ def sec_q(ck, K, eps_list):
     Sn = trn.symbols(itn)
     on = trn.run(itn, Sn)
     Qn = uf_terms(itn, "QNET")[:K]
-    un = uf_terms(itn, "RAND_u01")[0]
+    uns = uf_terms(itn, "RAND_u01")
+    if not uns:
+        ck.skip(f"q.eps_greedy_bound@nomask,K={K}", "no uniform threshold in the keyed call: the exploration scheme is bounded through its behaviour law (q.eps_greedy_bound@eps=...)")
+        return
+    un = uns[0]
     allm = [True] * K
     ck.prove(f"q.eps_greedy_bound@nomask,K={K}", stubs.contracts(itn) + [un >= Fraction(float(np.float32(0.1)))], conj([greedy_idx(on["a"][()], allm, Qn, itn.o), greedy_idx(on["a0"][()], allm, Qn, itn.o)]),
              replay=_greedy_replay(trn, Sn, itn, "QNET"))
+
+
+def _with_categorical_hook(fn):
+    """run fn() with lerax Categorical.sample replaced by `hook(self, key)`; returns (result of fn, captured distribution objects)"""
+    from lerax.distribution import Categorical
+    captured = []
+    orig = Categorical.sample
+
+    def hook(self, key):
+        captured.append(self)
+        return hook.draw(self, key)
+    hook.orig = orig
+    Categorical.sample = hook
+    try:
+        return fn(hook), captured
+    finally:
+        Categorical.sample = orig
+
+
+def q_fn_law(pol, obs, m, key):
+    from jaxsmt.uf import uf
+
+    def run(hook):
+        hook.draw = lambda d, k: uf("CATSAMPLE", [((), "int32")], k)[0].astype(jax.eval_shape(lambda: hook.orig(d, k)).dtype)
+        with stubs.prng_stubs():
+            return pol(None, obs, action_mask=m, key=key)[1]
+    a, cap = _with_categorical_hook(run)
+    if len(cap) != 1:
+        raise RuntimeError(f"expected exactly one categorical draw in the keyed Q-policy call, found {len(cap)}")
+    return {"a": a, "law": cap[0].probs, "greedy": pol(None, obs, action_mask=m)[1]}
+
+
+def sec_q_behaviour_law(ck, K, eps, pol, obs, m0):
+    """the keyed action is one draw c ~ Categorical(p) of a behaviour law p the policy builds from (Q, mask, epsilon): the departure probability is the mass p
+    puts outside the greedy set.  The real `probs` of the real distribution object are interpreted in LOG mode (exact rational functions of the inputs)."""
+    trl = trace(q_fn_law, pol, obs, m0, jr.key(0), argnames=["pol", "obs", "m", "key"], label=f"MLPQPolicy(epsilon={eps}).__call__(key, action_mask) with the behaviour law exposed")
+    ck.encoded(trl)
+    itl = LogInterp()
+    Sl = trl.symbols(itl)
+    ol = trl.run(itl, Sl)
+    ml, Ql = list(Sl["m"]), uf_terms(itl, "QNET")
+    cs = uf_terms(itl, "CATSAMPLE")
+    if len(cs) != 1 or len(Ql) < K:
+        ck.skip(f"q.eps_greedy_bound@eps={eps},K={K}", "neither a uniform threshold nor a single categorical draw: the exploration scheme is not one the obligation can bound")
+        return
+    c, Ql = cs[0], Ql[:K]
+    P = [itl.o.lower(x) for x in ol["law"]]
+    a = ol["a"][()]
+    a = itl.o.lower(a) if not isinstance(a, (int, z3.ExprRef)) else a
+    side = conj(itl.side_conds())
+    asm = [disj(ml), z3.And(c >= 0, c < K)]
+    e32 = Fraction(float(np.float32(eps)))
+    # LOG mode does not order plain-real Q-values (exp / log are uninterpreted there), so the greedy index the policy computes -- the term of its key-less
+    # action -- is abstracted by a fresh index k ranging over the allowed actions: the bound is shown for EVERY allowed index in the role of the greedy one
+    # (an over-approximation: it contains the true greedy index)
+    tg = ol["greedy"][()]
+    kidx = z3.Int("greedy_index")
+    asm += [z3.Or([z3.And(kidx == i, ml[i]) for i in range(K)]), z3.Distinct(Ql)]      # distinct Q-values: a unique greedy action (ties only enlarge the greedy set)
+    sub = (lambda t: z3.substitute(t, (tg, kidx))) if isinstance(tg, z3.ExprRef) else (lambda t: t)
+    P = [sub(x) if isinstance(x, z3.ExprRef) else x for x in P]
+    side = sub(side) if isinstance(side, z3.ExprRef) else side
+    depart = sum(z3.If(kidx == i, 0, P[i]) for i in range(K))
+
+    def rp(res):
+        from jaxsmt.distharness import replay_real
+        # real call with the real sampler, recording the real behaviour law
+        keys = concrete.KeyBinding(res)
+        w = concrete.ModelWorld(res, list(itl.uf_apps), keys)
+        vals = [concrete.model_leaf(res, Sl[n], av, keys) for n, av in zip(trl.in_names, trl.in_avals)]
+        pol_c, obs_c, m_c, key_c = concrete.rebuild_args(trl, vals)
+        from lerax.distribution import Categorical
+        orig = Categorical.sample
+
+        def run(hook):
+            hook.draw = lambda d, k: orig(d, k)
+            from jaxsmt.uf import world
+            jax.clear_caches()
+            with world(w):
+                out = pol_c(None, obs_c, action_mask=m_c, key=jr.key(5))[1]
+            jax.clear_caches()
+            return out
+        _, cap = _with_categorical_hook(run)
+        law = np.asarray(cap[0].probs, np.float64)
+        q = np.array([val(res, t) for t in Ql])
+        mm = np.asarray(m_c).astype(bool)
+        gset = mm & (q >= np.max(q[mm]) - 1e-9)
+        mass = float(law[~gset].sum())
+        return mass > eps + 1e-6, {"function": trl.label, "q_values": q.tolist(), "mask": mm.tolist(), "behaviour_law_of_the_real_policy": law.tolist(), "mass_outside_the_greedy_set": mass, "epsilon": eps}
+    ck.prove(f"q.eps_sampler_is_one_categorical_draw@eps={eps},K={K}", asm, conj([side, a == c]), replay=lambda res: (False, {"note": "the action is not the categorical draw itself: scheme not bounded by this obligation"}), nonlinear=True)
+    # the law's float32 constants (epsilon, 1 - epsilon) are rounded: the bound is stated with the resolution of a float32 probability (1e-6), and a
+    # counterexample that exceeds epsilon by a margin is preferred
+    tol = Fraction(1, 10 ** 6)
+    ck.prove(f"q.eps_greedy_bound@eps={eps},K={K}", asm, conj([side, depart <= e32 + tol]), replay=rp, nonlinear=True, margin_goal=conj([side, depart <= e32 + Fraction(1, 100)]))
 
 
 def _greedy_replay(tr, S, it, net):
